@@ -36,3 +36,15 @@ VARIANTS = [
         "            if err < -np.pi:\n                err += 2 * np.pi\n            elif err > np.pi:\n                err -= 2 * np.pi\n            return err",
         "            if err < -np.pi:\n                return err + 2.0 * np.pi\n            if err > np.pi:\n                return err - 2.0 * np.pi\n            return err")]),
 ]
+
+# seeded (round 2)
+VARIANTS += [
+    dict(name="seed2-heading-memoised", kind="break", rule="R-FRAME", edits=[
+        ("common/object.py", "        if self.frame_id == FrameID.BASE_LINK:\n            rots, _, _ = self.state.orientation.yaw_pitch_roll\n",
+         "        if getattr(self, \"_heading_bev\", None) is not None:\n            return self._heading_bev\n        if self.frame_id == FrameID.BASE_LINK:\n            rots, _, _ = self.state.orientation.yaw_pitch_roll\n"),
+        ("common/object.py", "        trans_rots = float(np.where(trans_rots < -math.pi, trans_rots + 2 * math.pi, trans_rots))\n        return trans_rots",
+         "        trans_rots = float(np.where(trans_rots < -math.pi, trans_rots + 2 * math.pi, trans_rots))\n        self._heading_bev = trans_rots\n        return trans_rots")]),
+    dict(name="seed2-aph-unclipped-arccos", kind="break", rule="C09-aph-weight", edits=[("evaluation/metrics/detection/tp_metrics.py",
+        "        diff_heading: float = abs(pd_heading - gt_heading)\n\n        # Normalize heading error to [0, pi] (+pi and -pi are the same).\n        if diff_heading > pi:\n            diff_heading = 2.0 * pi - diff_heading\n",
+        "        diff_heading: float = float(np.arccos(np.cos(pd_heading) * np.cos(gt_heading) + np.sin(pd_heading) * np.sin(gt_heading)))\n")]),
+]
